@@ -388,6 +388,22 @@ def gen_filter(rnd, st, v=None):
             f['forbidden'] = _setrec([x])
             f['member_of'] = [_setrec([rnd.choice(aggs)])]
             f['forbidden_aggs'] = {}
+    # a tree and two classes of one of its providers, each amount at the edge of the room that
+    # class has left there (usage differs from class to class)
+    if v >= 14 and rnd.random() < 0.12:
+        def room(p, k):
+            i = st['inv'][p][k]
+            used = sum(d.get(p, {}).get(k, 0) for d in st['alloc'].values())
+            return (i['total'] - i['reserved']) * i['num'] // i['den'] - used
+        two = [p for p in provs if len(st['inv'].get(p, {})) >= 2]
+        if two:
+            p = rnd.choice(two)
+            k1, k2 = rnd.sample(sorted(st['inv'][p]), 2)
+            f.update({'name': '', 'has_name': False, 'uuid': '', 'member_of': [], 'forbidden_aggs': {},
+                      'required': [], 'forbidden': {}})
+            f['in_tree'] = rnd.choice([p, st['rp'][p]['root'], st['rp'][p]['root']])
+            f['resources'] = {k1: max(1, room(p, k1) + rnd.choice([0, 0, 1])),
+                              k2: max(1, room(p, k2) + rnd.choice([0, 0, 1]))}
     if rnd.random() < 0.04 and v >= 18:
         f['required'].append(_setrec(['CUSTOM_T4']))     # unknown trait -> 400
     if rnd.random() < 0.04 and v >= 4:
